@@ -66,6 +66,9 @@ def scenario(draw):
         p = {"id": pid, "flavour": flv, "role": "executed", "caller": caller, "kind": kind, "end": end,
              "program": [["sleep", draw(st.sampled_from([0, 0, 1, 10, 50]))]] if draw(st.booleans()) else [],
              "reg": {"how": "execute"}, "cleanup": {}}
+        shape = draw(st.sampled_from([None, None, None, "no-module", "partial", "instance", "method"]))  # what kind of callable the payload is
+        if shape:
+            p["callable"] = shape
         p.update(draw(arguments()))
         payloads.append(p)
         callers[caller].append(("execute", pid))
@@ -182,6 +185,9 @@ def run_case(sc) -> Result:
             if p["kind"] != "none" and not p["caller"].startswith("outside"):
                 nt = True
     res.cls("schedule-perturbed:" + str(bool(sc.get("trace_delay"))))
+    for p in sc["payloads"]:
+        if p.get("callable"):
+            res.cls("callable:" + p["callable"])
     res.cls("direction:" + sc["direction"], "executes:%s" % ("1" if sc["nexec"] <= 1 else "2-5" if sc["nexec"] <= 5 else ">5"))
     res.nontrivial = nt
     if res.violations:
